@@ -17,6 +17,94 @@ let judge (scalar : n list res) (variants : (string * n list res) list) : string
       go variants
   | _ -> "MFAULT variant=scalar"
 
+let intr_ids = [
+  "_mm_shuffle_epi8", 0;
+  "_mm_unpacklo_epi8", 1;
+  "_mm_unpackhi_epi8", 2;
+  "_mm_unpacklo_epi16", 3;
+  "_mm_unpackhi_epi16", 4;
+  "_mm_unpackhi_epi64", 5;
+  "_mm_and_si128", 6;
+  "_mm_min_epu8", 7;
+  "_mm_add_epi16", 8;
+  "_mm_add_epi32", 9;
+  "_mm_add_epi64", 10;
+  "_mm_cmpeq_epi8", 11;
+  "_mm_cmpeq_epi16", 12;
+  "_mm_cmpeq_epi32", 13;
+  "_mm_cmplt_epi16", 14;
+  "_mm_mullo_epi16", 15;
+  "_mm_packs_epi16", 16;
+  "_mm_slli_si128_4", 17;
+  "_mm_slli_si128_8", 18;
+  "_mm_srli_si128_2", 19;
+  "_mm_srli_si128_4", 20;
+  "_mm_srli_si128_8", 21;
+  "_mm_slli_epi32_7", 22;
+  "_mm_srli_epi16_4", 23;
+  "_mm_set1_epi8", 24;
+  "_mm_set1_epi16", 25;
+  "_mm_set1_epi32", 26;
+  "_mm_set1_epi64x", 27;
+  "_mm_cvtsi32_si128", 28;
+  "_mm_cvtsi64_si128", 29;
+  "_mm_loadl_epi64", 30;
+  "_mm_movemask_epi8", 31;
+  "_mm_cvtsi128_si32", 32;
+  "_mm_extract_epi32_3", 33;
+  "_mm_extract_epi16_0", 34;
+  "_mm_crc32_u8", 35;
+  "_mm_crc32_u16", 36;
+  "_mm_crc32_u32", 37;
+  "_mm_crc32_u64", 38;
+  "_mm256_shuffle_epi8", 39;
+  "_mm256_and_si256", 40;
+  "_mm256_min_epu8", 41;
+  "_mm256_add_epi32", 42;
+  "_mm256_add_epi64", 43;
+  "_mm256_cmpeq_epi32", 44;
+  "_mm256_slli_si256_4", 45;
+  "_mm256_slli_si256_8", 46;
+  "_mm256_set1_epi8", 47;
+  "_mm256_set1_epi32", 48;
+  "_mm256_set1_epi64x", 49;
+  "_mm256_cvtepu8_epi32", 50;
+  "_mm256_cvtepu16_epi32", 51;
+  "_mm256_inserti128_si256_1", 52;
+  "_mm256_extracti128_si256_0", 53;
+  "_mm256_extracti128_si256_1", 54;
+  "_mm256_movemask_epi8", 55;
+  "_mm256_extract_epi32_0", 56;
+  "_mm256_extract_epi32_4", 57;
+  "_mm256_extract_epi32_7", 58;
+  "_mm512_shuffle_epi8", 59;
+  "_mm512_permutexvar_epi32", 60;
+  "_mm512_add_epi32", 61;
+  "_mm512_add_epi64", 62;
+  "_mm512_set1_epi8", 63;
+  "_mm512_set1_epi32", 64;
+  "_mm512_set1_epi64", 65;
+  "_mm512_cvtepu8_epi32", 66;
+  "_mm512_cvtepu16_epi32", 67;
+  "_mm512_maskz_set1_epi8_1", 68;
+  "_mm512_maskz_alignr_epi32_FFFE_15", 69;
+  "_mm512_maskz_alignr_epi32_FFFC_14", 70;
+  "_mm512_maskz_alignr_epi32_FFF0_12", 71;
+  "_mm512_maskz_alignr_epi32_FF00_8", 72;
+  "_mm512_maskz_alignr_epi64_FE_7", 73;
+  "_mm512_maskz_alignr_epi64_FC_6", 74;
+  "_mm512_maskz_alignr_epi64_F0_4", 75;
+  "_mm512_maskz_loadu_epi8", 76;
+  "_mm512_castsi512_si128", 77;
+  "_mm512_extracti32x4_epi32_1", 78;
+  "_mm512_extracti32x4_epi32_2", 79;
+  "_mm512_extracti32x4_epi32_3", 80;
+  "_mm512_test_epi8_mask", 81;
+  "_mm512_cmpeq_epi32_mask", 82;
+]
+
+let pad64 l = let n = List.length l in if n >= 64 then l else l @ repeat (n_of_int 0) (64 - n)
+
 let handle toks =
   match toks with
   | ["dispatch"; bits] ->
@@ -43,5 +131,9 @@ let handle toks =
       let c = int_of_string count in let n = nat_of_int c and src = bytes_of_hex data and o = fill (8 * c) in
       judge (Simd_ext.scalar_bss_decode (nat_of_int 8) n src o)
         ["sse", Simd_ext.sse_bss_decode_double n src o; "avx2", Simd_ext.avx2_bss_decode_double n src o]
+  | ["intr"; name; a; b; _] ->
+      (match List.assoc_opt name intr_ids with
+       | None -> "UNMODELLED"
+       | Some id -> "OK " ^ hex_of_bytes (Simd_ext.intr_eval (n_of_int id) (pad64 (bytes_of_hex a)) (pad64 (bytes_of_hex b))))
   | _ -> "UNMODELLED"
 let () = main_loop handle
